@@ -60,7 +60,7 @@ PStep(ps, prev, ev) ==
      !.os_error = @ \/ ev.faulted]
 
 (* ---------- judgement of the whole attempt ---------- *)
-ExpectedMode(cfg, init) == IF cfg.perms # 0 THEN cfg.perms
+ExpectedMode(cfg, init) == IF cfg.perms >= 0 THEN cfg.perms      \* -1: file_perms not given; 0 is a mode like any other
                            ELSE IF init.dest.st # "absent" THEN init.dest.mode     \* the file being replaced
                            ELSE cfg.umask_default          \* 0o666 & ~umask, computed by the harness
 
